@@ -297,9 +297,11 @@ def chk (pred : String) (m : List (String × String)) : Option Bool :=
       pure (db, ds))
     pure (Spec.C06.ledgerOK sa final cs)
   | "gate" => do
-    let res ← get m "res"
-    pure (Spec.C07.gateOK (← get m "kind") (res == "ok") ((← get m "paused") == "1") (listOf (← get m "bl") ",")
-      (listOf (← get m "peggy") ",") (← get m "recv") (← get m "symbol"))
+    pure (Spec.C07.gateOK (← get m "kind") (← get m "res") ((← get m "paused") == "1") (listOf (← get m "bl") ",")
+      (listOf (← get m "peggy") ",") (listOf (← get m "minted") ",") (← get m "recv") (← get m "symbol"))
+  | "peggyreg" => do
+    let final ← parseContent (← get m "final")
+    pure (Spec.C07.peggyRegOK final (listOf (← get m "peggyb") ",") (listOf (← get m "peggya") ","))
   | "blset" => do
     pure (Spec.C07.blSetOK (listOf (← get m "req") ",") (listOf (← get m "bl") ","))
   | "fx" => do
